@@ -557,8 +557,8 @@ func checkRequestViasOne(inV []AVia, outE []string, pt *mTransport, stamp bool, 
 			return fmt.Sprintf("new top Via %q does not name the listener %s", outE[0], pt)
 		}
 		br, _, ok := nv.Param("branch")
-		if !ok || !strings.HasPrefix(br, "z9hG4bK") || len(br) < 7+8 {
-			return fmt.Sprintf("new top Via %q lacks a branch starting with z9hG4bK plus at least 8 characters", outE[0])
+		if !ok || !strings.HasPrefix(br, "z9hG4bK") || len(br) < 7+1 {
+			return fmt.Sprintf("new top Via %q lacks a branch that starts with z9hG4bK and continues with a generated part", outE[0])
 		}
 		for _, v := range inV {
 			if b, _, ok := v.Param("branch"); ok && b == br {
